@@ -487,7 +487,7 @@ def gen_ser_exhaustive(ck):
         for n in (1, 2, 3):
             seqs = itertools.product(shp, repeat=n)
             for si, seq in enumerate(seqs):
-                if r == 3 and n == 3 and ck.quick and (si + ck.seed) % 8 != 0:
+                if r == 3 and n == 3 and ck.quick and (si + ck.seed) % 2 != 0:
                     continue
                 dlist = dts if (not ck.quick and (r <= 2 or n <= 2)) else [dts[k % len(dts)]]
                 for dt in dlist:
@@ -736,7 +736,7 @@ def tag_of(case, obs):
 def run(ck: common.Check):
     ck.prove(["GeffProps.C11"])
     ck.rule = ("cases = corpus + (ser/de) every sequence of 1..3 arrays of one rank 0..3 with every extent 0..2, dtype "
-               "(12 numeric + str) and missing pattern rotating [rank-3 triples sampled 1/8 in quick] + invalid "
+               "(12 numeric + str) and missing pattern rotating [rank-3 triples sampled 1/2 in quick] + invalid "
                "(mixed rank/dtype/non-array) sequences + adversarial offset tables for the decoder + (normalise) every "
                "multiset of <=3 entries (and a sample of 4) over a 20-entry alphabet of None/scalars/nested lists/typed "
                "arrays, each run in every distinct permutation + seeded random longer sequences + a sample through a "
